@@ -23,3 +23,10 @@ CFG = {
                      "layout.rs in full); not modelled: Header -> (width,height,depth,mips,caps2/dx10 fields) "
                      "projection is taken from the public Header struct fields"],
 }
+
+
+def equal(a, b):
+    """C02 promises that a header whose total does not fit (or that is otherwise not a layout) is rejected "with an
+    error" — not WHICH error a header gets that is invalid in two ways at once (too many mipmaps and an array that is
+    too large). Two different error names are therefore equal; everything else is compared exactly."""
+    return a == b or (a.startswith("err ") and b.startswith("err "))
